@@ -31,6 +31,15 @@ pub struct VfMutators { inner: usize }
 
 verus! {
 
+impl OpcodeKind {
+//@fn src/opcodes.rs OpcodeKind::as_u8
+//@ret r
+//@props C04 C05 C06 C10
+//@contract
+    ensures r as int == ref_code(self), // @C04
+//@endfn
+}
+
 impl Stack {
     pub open spec fn view(&self) -> Seq<Kind> {
         Seq::new(self.inner@.len(), |i: int| self.inner@[i].kind())
@@ -447,16 +456,15 @@ impl Generator {
     requires
         old(self).rel(r),
         !old(self).unsafe_mutations,
-        opcode != OpcodeKind::Stop,
         ref_pre(opcode, a, r),
         old(self).sim_pre(opcode),
         arg_link(opcode, arg_bytes, a),
     ensures
-        shape_eq(final(self).view(), ref_step(opcode, a, r).stack), // @C01 @C03 @C17
-        kinds_ok(final(self).view(), ref_step(opcode, a, r).stack), // @C03 @C17
-        final(self).memo_dom_rel(ref_step(opcode, a, r)), // @C02 @C17
-        final(self).memo_kinds_rel(ref_step(opcode, a, r)), // @C03 @C17
-        final(self).rel(ref_step(opcode, a, r)),
+        shape_eq(final(self).view(), sim_step(opcode, a, r).stack), // @C01 @C03 @C17
+        kinds_ok(final(self).view(), sim_step(opcode, a, r).stack), // @C03 @C17
+        final(self).memo_dom_rel(sim_step(opcode, a, r)), // @C02 @C17
+        final(self).memo_kinds_rel(sim_step(opcode, a, r)), // @C03 @C17
+        final(self).rel(sim_step(opcode, a, r)),
         final(self).output == old(self).output, // @C04 @C06
         final(self).same_config(old(self)), // @C05 @C10
 //@arm Dup
@@ -531,6 +539,102 @@ impl Generator {
 //@subst u32::from_le_bytes( => vf_u32_from_le_bytes(
 //@arm LongBinPut
 //@subst u32::from_le_bytes( => vf_u32_from_le_bytes(
+//@endfn
+
+//@fn src/generator/emission.rs Generator::emit_opcode
+//@ghost Ghost(r): Ghost<RefState>
+//@props C01 C02 C03 C04 C05 C17
+//@rewrite R14 process_stack_ops self.process_stack_ops($ARGS, Ghost(r), Ghost(RefArg { idx: 0 }))
+//@contract
+    requires
+        old(self).rel(r),
+        !old(self).unsafe_mutations,
+        ref_pre(opcode, RefArg { idx: 0 }, r),
+        old(self).sim_pre(opcode),
+        arg_link(opcode, None, RefArg { idx: 0 }),
+    ensures
+        final(self).rel(sim_step(opcode, RefArg { idx: 0 }, r)), // @C17 @C01
+        final(self).output@ == old(self).output@.push(ref_code(opcode) as u8), // @C04
+        final(self).same_config(old(self)),
+//@endfn
+
+    /// opcodes the stack-collapse phase may use (C05: all available in the requested protocol)
+    pub open spec fn tail_op(op: OpcodeKind, v: Version) -> bool {
+        (op == OpcodeKind::Tuple || op == OpcodeKind::Tuple2 || op == OpcodeKind::Tuple3
+            || op == OpcodeKind::Pop || op == OpcodeKind::None)
+        && ref_proto(op) <= ver_num(v)
+    }
+
+    pub open spec fn cleanup_post(&self, o: &Generator, r: RefState, t: Trace) -> bool {
+        &&& ref_run_ok(r, t)                                   // every tail opcode is legal (C01)
+        &&& self.rel(ref_run(r, t))
+        &&& ref_run(r, t).stack.len() == 1 && ref_run(r, t).stack[0] != Kind::Mark   // exactly one object for STOP
+        &&& ref_run(r, t).memo == r.memo && ref_run(r, t).memo_len == r.memo_len
+        &&& self.output@ == o.output@ + codes(t)
+        &&& forall|i: int| 0 <= i < t.len() ==> Generator::tail_op(#[trigger] t[i].0, o.state.version)      // C05
+        &&& t.len() <= 2 * o.view().len() + 1                                         // C11
+        &&& self.same_config(o)
+    }
+
+//@fn src/generator/stack_ops.rs Generator::cleanup_for_stop
+//@ghost Ghost(r): Ghost<RefState>
+//@props C01 C05 C11 C09
+//@subst self.state.version >= Version::V2 => vf_version_ge(self.state.version, Version::V2)
+//@rewrite R14 emit_opcode self.emit_opcode($1, Ghost(gr)); proof { let ghost gop: OpcodeKind = $1; lemma_run_push(r, gtr, gop, RefArg { idx: 0 }); lemma_codes_push(gtr, gop, RefArg { idx: 0 }); gtr = gtr.push((gop, RefArg { idx: 0 })); gr = sim_step(gop, RefArg { idx: 0 }, gr); }
+//@contract
+    requires
+        old(self).rel(r),
+        !old(self).unsafe_mutations,
+    ensures
+        exists|t: Trace| #[trigger] final(self).cleanup_post(old(self), r, t),
+//@prelude
+        let ghost mut gr: RefState = r;
+        let ghost mut gtr: Trace = Seq::empty();
+        proof { assert(codes(gtr) =~= Seq::<u8>::empty()); assert(self.output@ + codes(gtr) =~= self.output@);
+                lemma_count_marks_shape(self.view(), r.stack); }
+//@loop 1
+            invariant
+                self.rel(gr), !self.unsafe_mutations, gr == ref_run(r, gtr), ref_run_ok(r, gtr),
+                self.output@ == old(self).output@ + codes(gtr),
+                forall|i: int| 0 <= i < gtr.len() ==> Generator::tail_op(#[trigger] gtr[i].0, old(self).state.version),
+                self.same_config(old(self)), gr.memo == r.memo, gr.memo_len == r.memo_len,
+                gtr.len() + count_marks(gr.stack) == count_marks(r.stack),
+                gr.stack.len() <= r.stack.len(),
+            decreases count_marks(gr.stack),
+//@before 1 self.emit_opcode(Tuple
+            proof { lemma_top_mark_compat(self.view(), gr.stack); lemma_tuple_step(gr.stack); lemma_count_marks_bounds(gr.stack); }
+            let ghost out0 = self.output@; let ghost tr0 = gtr;
+//@after 1 self.emit_opcode(Tuple
+            proof { assert(old(self).output@ + codes(tr0).push(ref_code(OpcodeKind::Tuple) as u8) =~= (old(self).output@ + codes(tr0)).push(ref_code(OpcodeKind::Tuple) as u8)); }
+//@before 1 let has_tuple_n
+        let ghost n1 = gtr.len(); let ghost len1 = gr.stack.len();
+        proof { lemma_top_mark_compat(self.view(), gr.stack); lemma_count_marks_bounds(gr.stack); lemma_count_marks_bounds(r.stack); }
+//@loop 2
+            invariant
+                self.rel(gr), !self.unsafe_mutations, gr == ref_run(r, gtr), ref_run_ok(r, gtr),
+                self.output@ == old(self).output@ + codes(gtr),
+                forall|i: int| 0 <= i < gtr.len() ==> Generator::tail_op(#[trigger] gtr[i].0, old(self).state.version),
+                self.same_config(old(self)), gr.memo == r.memo, gr.memo_len == r.memo_len,
+                count_marks(gr.stack) == 0,
+                has_tuple_n == (ver_num(self.state.version) >= 2),
+                gtr.len() + gr.stack.len() <= n1 + len1,
+                n1 <= r.stack.len(), len1 <= r.stack.len(),
+            ensures
+                self.view().len() <= 1,
+            decreases gr.stack.len(),
+//@before 1 self.emit_opcode(Pop
+                proof { lemma_nomark_step(gr.stack, 1, false); }
+//@before 1 self.emit_opcode(Tuple3
+                proof { lemma_nomark_step(gr.stack, 3, true); }
+//@before 1 self.emit_opcode(Tuple2
+                proof { lemma_nomark_step(gr.stack, 2, true); }
+//@before 1 self.emit_opcode(None
+            proof { lemma_nomark_step(gr.stack, 0, false); lemma_count_marks_push(gr.stack.subrange(0, gr.stack.len() as int), Kind::None); }
+//@before 1 if matches!(*top.borrow(), StackObject::Mark)
+            proof { lemma_nomark_step(gr.stack, 0, false); lemma_top_mark_props(gr.stack);
+                    lemma_top_mark_compat(self.view(), gr.stack); lemma_top_mark_props(self.view()); }
+//@epilogue
+        proof { assert(self.cleanup_post(old(self), r, gtr)); }
 //@endfn
 
 }
